@@ -414,6 +414,23 @@ def r2_lock_order(ctx, svc: Svc, tables: Set[str]) -> None:
           for r in reentered:
             for l in acquires.get(r, ()):
               edges[(h, l)] = f'{name} holds {h} while Pythia re-enters {r}, which takes {l}'
+  # direct re-entry: an RPC handler calling another RPC handler of the same servicer while holding a lock
+  for name, fi in svc.rpcs.items():
+    for n in ast.walk(fi.node):
+      if isinstance(n, ast.Call) and isinstance(n.func, ast.Attribute) and isinstance(n.func.value, ast.Name) \
+          and n.func.value.id == 'self' and n.func.attr in svc.rpcs and n.func.attr != name:
+        held = set()
+        for anc in ancestors(n):
+          if isinstance(anc, ast.With):
+            for item in anc.items:
+              e = item.context_expr
+              base = e.value if isinstance(e, ast.Subscript) else e
+              d = dotted(base)
+              if d and d.startswith('self.') and d[5:] in tables:
+                held.add(d[5:])
+        for h in held:
+          for l in acquires.get(n.func.attr, ()):
+            edges[(h, l)] = f'{name} holds {h} while it calls self.{n.func.attr}(), which takes {l}'
   # cycle detection
   graph: Dict[str, Set[str]] = {}
   for (a, b) in edges:
